@@ -28,7 +28,7 @@ var cbKinds = []string{
 	"sessions-as-flow",
 }
 
-var redeemBad = []string{"400", "401", "403", "429", "500", "503", "malformed-json", "empty-email", "no-email-field", "201", "dropped", "unscripted", "code-missing", "code-empty"}
+var redeemBad = []string{"empty-email", "no-email-field", "400", "401", "403", "429", "500", "503", "malformed-json", "empty-email", "no-email-field", "201", "dropped", "unscripted", "code-missing", "code-empty"}
 
 type cbCase struct {
 	Index     int      `json:"index"`
@@ -94,8 +94,18 @@ func runCallback(rep *vh.Report, env vh.Env, worlds []*world, i int) {
 	wordf := func(n int) string { return word(r, n) }
 	rep.Eval()
 
+	// the authenticator's answer
+	redeem := "ok"
+	if r.Intn(3) == 0 {
+		redeem = redeemBad[r.Intn(len(redeemBad))]
+	}
 	// the flows: browsers A and B on one upstream
 	fu := w.ups[r.Intn(len(w.ups))]
+	noEmail := redeem == "empty-email" || redeem == "no-email-field"
+	if noEmail && r.Intn(3) > 0 {
+		// only a rule that does not read the e-mail could admit such an answer: the group upstream
+		fu = w.ups[2]
+	}
 	startOne := func() *flow {
 		target := "/" + word(r, 1+r.Intn(6)) + "/" + word(r, 1+r.Intn(6))
 		if r.Intn(2) == 0 {
@@ -116,13 +126,13 @@ func runCallback(rep *vh.Report, env vh.Env, worlds []*world, i int) {
 	rep.Count("b_flows_started", 2)
 
 	// dimensions other than the permutation
-	redeem := "ok"
-	if r.Intn(4) == 0 {
-		redeem = redeemBad[r.Intn(len(redeemBad))]
-	}
 	hostRel := "own"
 	host := fu.host
-	switch x := r.Intn(20); {
+	x := r.Intn(20)
+	if noEmail {
+		x = 19
+	}
+	switch {
 	case x < 5:
 		hostRel = "other-upstream"
 		for {
@@ -313,9 +323,19 @@ func runCallback(rep *vh.Report, env vh.Env, worlds []*world, i int) {
 			sv = append(sv, v)
 		}
 		states, cookies = []string{sv[0]}, []string{sv[1]}
-		if r.Intn(3) == 0 {
+		switch r.Intn(6) {
+		case 0:
 			variant = "state=flow-state cookie=session"
 			states = []string{fa.State}
+		case 1:
+			variant = "state=session cookie=flow-cookie"
+			cookies = []string{fa.CSRF}
+		case 2:
+			variant = "state=session cookie=garbage"
+			cookies = []string{word(r, 40+r.Intn(40))}
+		case 3:
+			variant = "state=garbage cookie=session"
+			states = []string{word(r, 40+r.Intn(40))}
 		}
 	}
 	kc.Variant = variant
@@ -562,7 +582,7 @@ func runCallback(rep *vh.Report, env vh.Env, worlds []*world, i int) {
 			if denoteForm(loc, false) == denoteForm(rec.RedirectURI, false) {
 				rep.Count("b_location_denotes_recorded", 1)
 			} else {
-				rep.Violate(streamCB, i, "callback: location-differs-from-recorded permutation="+kind,
+				rep.Violate(streamCB, i, "callback: location-differs-from-recorded",
 					fmt.Sprintf("flow record holds %q, the callback redirects to %q", clip(rec.RedirectURI), clip(loc)), kc)
 			}
 		}
@@ -571,7 +591,8 @@ func runCallback(rep *vh.Report, env vh.Env, worlds []*world, i int) {
 		} else if dontCare == "harness-resealed-value" {
 			rep.Count("b_dontcare_resealed_record_leaves_site", 1)
 		} else {
-			rep.Violate(streamCB, i, "callback: redirect-leaves-site permutation="+kind,
+			// Part B flows are started on plain targets
+			rep.Violate(streamCB, i, "callback: redirect-leaves-site target=plain",
 				fmt.Sprintf("after login on %s the browser is sent to %q, which a browser reads as %s on host %q", host, clip(loc), rv.Kind, rv.Host), kc)
 		}
 	}
